@@ -12,7 +12,7 @@ mod chainrep;
 use chainrep::*;
 
 const MATURITY: u64 = 3;
-const N_INVALID_KINDS: u64 = 37;
+const N_INVALID_KINDS: u64 = 38;
 
 #[derive(Clone, Default)]
 struct AState {
@@ -572,6 +572,20 @@ impl Gen {
 				tags.push("hdr:InvalidRoot".into());
 				label = "prev-root-wrong";
 			}
+			37 => {
+				// the output root commits to ANOTHER unspent-output bitmap: right output PMMR root, wrong
+				// bitmap root, hashed with the right size (header version >= 3 only)
+				use grin_core::ser::PMMRIndexHashable;
+				if b.header.version < grin_core::core::HeaderVersion(3) {
+					return None;
+				}
+				let (pr, bm) = self.kit.output_roots_after(&b)?;
+				let mut v = bm.to_vec();
+				v[11] ^= 1;
+				b.header.output_root = (pr, Hash::from_vec(&v)).hash_with_index(b.header.output_mmr_size);
+				tags.push("late:InvalidRoot".into());
+				label = "output-root-for-a-wrong-bitmap";
+			}
 			30..=36 => {
 				// TWO faults in one block: the verdict must be the FIRST failing stage of the code's
 				// order (`want:` = the expected error class, checked on the implementation at delivery;
@@ -1098,8 +1112,11 @@ fn run_history(out: &mut Out, rng: &mut Rng, work: &str, hist: usize, big: bool)
 						// fork the repair reads other blocks' sizes at the body's heights and leaves entries
 						// missing (observation reported to the lead; not a registered probe)
 						let body_on_header_chain = subj.c().get_header_by_height(h.height).map(|x| x.hash() == h.last_block_h).unwrap_or(false);
-						if body_on_header_chain && rrng.chance(1, 2) {
-							let u = subj.utxo(kit);
+						if body_on_header_chain && h.height > 0 && rrng.chance(1, 2) {
+							// (outputs of the genesis block are left alone: the repair walks the headers from
+							// height 1 up, so it files them under height 1 and restores nothing while the head
+							// is the genesis - observation reported, precondition again a lost index entry)
+							let u: Vec<usize> = subj.utxo(kit).into_iter().filter(|o| *o != 0).collect();
 							if let Ok(mut b) = subj.c().store().batch() {
 								for _ in 0..2 {
 									if !u.is_empty() {
@@ -1242,6 +1259,79 @@ fn run_history(out: &mut Out, rng: &mut Rng, work: &str, hist: usize, big: bool)
 		finals.push((name.clone(), subj.obs(kit), subj.roots(), true));
 		drop(subj);
 		drop(twin);
+	}
+	// EVERY invalid variant (one per validation stage, and the two-fault ones) on a node that HAS the
+	// block's parent, so that it reaches the stage it is about, under EVERY word of processing
+	// options: SKIP_POW alone and with SYNC / MINE / both (compared with the model line by line; the
+	// verdict must be the same for all four, and for a two-fault block the first failing stage of
+	// the code's order), and without SKIP_POW - NONE, SYNC, MINE - where it must be refused too
+	// (the blocks carry no real proof of work; which PoW stage answers is C04's business)
+	{
+		let sw = new_rec_subject(&format!("{}/sw_{}", work, hist), &kit.genesis);
+		out.raw("chain new sw");
+		let mut have: BTreeSet<usize> = BTreeSet::new();
+		have.insert(0);
+		let strip = |s: &str| -> String { s.split(' ').filter(|t| !t.starts_with("hhead=")).collect::<Vec<_>>().join(" ") };
+		for x in invalid.iter() {
+			let mut need = vec![];
+			let mut p = kit.blks[*x].parent.unwrap();
+			while !have.contains(&p) {
+				need.push(p);
+				p = kit.blks[p].parent.unwrap();
+			}
+			need.reverse();
+			for i in need {
+				let r = sw.deliver_block(&kit.blks[i].block);
+				out.line(&format!("chain deliver sw b{}", i), &r);
+				have.insert(i);
+			}
+			let before = (sw.obs(kit), sw.roots());
+			let kind = kit.blks[*x].tags.iter().find(|t| t.starts_with("kind:")).cloned().unwrap_or_default();
+			let want = kit.blks[*x].tags.iter().find(|t| t.starts_with("want:")).map(|w| format!("err:{}", &w[5..]));
+			let mut verdicts: Vec<(u32, String)> = vec![];
+			for opts in [1u32, 3, 5, 7, 0, 2, 4] {
+				discard_status();
+				let o = grin_chain::Options::from_bits_truncate(opts);
+				let r = match sw.c().process_block(kit.blks[*x].block.clone(), o) {
+					Ok(Some(_)) => "ok:head".to_string(),
+					Ok(None) => "ok:fork".to_string(),
+					Err(e) => format!("err:{}", error_class(&e)),
+				};
+				if opts & 1 == 1 {
+					out.line(&format!("chain deliver sw b{} opts={}", x, opts), &r);
+					out.line("chain obs sw", &sw.obs(kit));
+				}
+				verdicts.push((opts, r.clone()));
+				if r.starts_with("ok") {
+					out.raw(&format!(
+						"#ORACLE-FAIL C06 invalid block accepted under processing options {}: hist={} b{} tags={:?} result={}",
+						opts, hist, x, kit.blks[*x].tags, r
+					));
+				}
+			}
+			let first = verdicts[0].1.clone();
+			*g_stats.entry(format!("invalid-with-parent:{}:{}", kind, first)).or_insert(0) += 1;
+			*g_stats.entry(format!("invalid-with-parent:without-SKIP_POW:{}", verdicts[4].1)).or_insert(0) += 1;
+			if verdicts[..4].iter().any(|v| v.1 != first) {
+				out.raw(&format!(
+					"#ORACLE-FAIL C06 the verdict on an invalid block depends on SYNC / MINE: hist={} b{} tags={:?} verdicts (options, result)={:?}",
+					hist, x, kit.blks[*x].tags, verdicts
+				));
+			}
+			if let Some(w) = want {
+				if first != w {
+					out.raw(&format!(
+						"#ORACLE-FAIL C06 a block with two faults, offered to a node that has its parent, must be refused by the FIRST failing stage of the code's order: hist={} b{} tags={:?} expected {} got {}",
+						hist, x, kit.blks[*x].tags, w, first
+					));
+				}
+			}
+			// (the header of a refused block may be remembered and move the header head: not compared)
+			if (strip(&sw.obs(kit)), sw.roots()) != (strip(&before.0), before.1.clone()) {
+				out.raw(&format!("#ORACLE-FAIL C06 a refused invalid block changed the node: hist={} b{} tags={:?}", hist, x, kit.blks[*x].tags));
+			}
+		}
+		discard_status();
 	}
 	// C02 / C06: Chain::reset_chain_head (owner API reset; Model/ChainReset.lean) and the header
 	// denylist (Chain::invalidate_header): a node that has the whole trunk is reset to a block k
